@@ -6,6 +6,7 @@ import (
 	"net/http"
 	"reflect"
 	"sort"
+	"strings"
 	"sync"
 	"sync/atomic"
 
@@ -322,6 +323,12 @@ func ClassifyHistory(h History) (bool, []string) {
 		labels["BindAndValidate twice with a body"] = true
 	}
 	labels["cred "+h.Req.Cred] = true
+	if strings.HasPrefix(h.Req.Cred, "zero-") && seen["Authorize"] > 1 {
+		labels["Authorize repeated with a zero-valued principal"] = true
+	}
+	if !strings.Contains(ops[h.Req.Op].Path, "{") {
+		labels["operation without path parameter"] = true
+	}
 	labels["body "+h.Req.Body] = true
 	var out []string
 	for l := range labels {
